@@ -140,6 +140,7 @@ func evalC15Cfg(c c15Cfg) *Failure {
 		return nil
 	}
 	running, dirty := false, false // dirty: a Start has failed since the last Stop
+	listenPlain := false           // the plain port was enabled when the server was last started (the configuration may have changed since)
 	for i, op := range c.Ops {
 		when := fmt.Sprintf("after op %d (%s)", i, op)
 		switch op {
@@ -168,6 +169,7 @@ func evalC15Cfg(c c15Cfg) *Failure {
 				continue
 			}
 			running = true
+			listenPlain = plainOn
 			if fl := served(when); fl != nil {
 				return fl
 			}
@@ -230,7 +232,7 @@ func evalC15Cfg(c c15Cfg) *Failure {
 			tr.StartErrs = 1
 			srv.SetTracer(tr)
 		case "clients=40", "clients=75", "clients=33":
-			if !running || !plainOn {
+			if !running || !listenPlain {
 				continue
 			}
 			var n int
